@@ -43,6 +43,7 @@ type C04Case struct {
 	Hangup  bool         `json:"hangup"`     // every peer closes its connection right after its last byte, without waiting
 	SlowNs  int64        `json:"slow_ns"`    // virtual time the incoming handler spends on each message (0: none)
 	AtOnce  bool         `json:"at_once"`    // all connections are pending at the listener at the same moment
+	SetupNs int64        `json:"setup_ns"`   // acceptor: virtual time the new-client callback takes before it registers its handlers, while the peer's first bytes are already arriving
 	Conns   []ConnScript `json:"conns"`
 	Senders [][]OutOp    `json:"senders"`
 }
@@ -143,6 +144,9 @@ func genC04(t *rapid.T) *C04Case {
 	if c.Role == "acceptor" {
 		nc = rapid.IntRange(1, 4).Draw(t, "nConns")
 		c.AtOnce = nc > 1 && rapid.Bool().Draw(t, "atOnce")
+		if rapid.IntRange(0, 2).Draw(t, "slowSetup") == 0 {
+			c.SetupNs = rapid.SampledFrom([]int64{1, 1e6, 2e9}).Draw(t, "setupNs")
+		}
 	}
 	for i := 0; i < nc; i++ {
 		c.Conns = append(c.Conns, genConnScript(t, i))
@@ -225,15 +229,20 @@ func checkC04(c *C04Case, rec *evid.Rec) (vs []pbt.Violation) {
 		}
 		var ar *rig.AcceptorRig
 		var ir *rig.InitiatorRig
+		ready0 := make(chan struct{}) // closed once the first connection's handlers are registered
 		if c.Role == "acceptor" {
 			next := 0
 			ar = rig.StartAcceptor(c.Buf, 10*time.Second, func(h simplefixgo.AcceptorHandler) {
 				i := next
 				next++
+				if c.SetupNs > 0 {
+					time.Sleep(time.Duration(c.SetupNs)) // the application takes its time; the peer does not wait
+				}
 				h.HandleIncoming(simplefixgo.AllMsgTypes, recs[i].handle)
 				if i == 0 {
 					h.HandleOutgoing(simplefixgo.AllMsgTypes, outHandler)
 					h0 = h
+					close(ready0)
 				}
 			})
 			for i := range c.Conns {
@@ -250,6 +259,7 @@ func checkC04(c *C04Case, rec *evid.Rec) (vs []pbt.Violation) {
 			ir.H.HandleIncoming(simplefixgo.AllMsgTypes, recs[0].handle)
 			ir.H.HandleOutgoing(simplefixgo.AllMsgTypes, outHandler)
 			h0 = ir.H
+			close(ready0)
 			ir.Serve()
 			synctest.Wait()
 		}
@@ -280,6 +290,7 @@ func checkC04(c *C04Case, rec *evid.Rec) (vs []pbt.Violation) {
 			wg.Add(1)
 			go func() {
 				defer wg.Done()
+				<-ready0
 				for _, op := range c.Senders[s] {
 					if op.Delay > 0 {
 						time.Sleep(time.Duration(op.Delay))
@@ -307,7 +318,7 @@ func checkC04(c *C04Case, rec *evid.Rec) (vs []pbt.Violation) {
 		}
 		wg.Wait()
 		synctest.Wait()
-		time.Sleep(time.Duration(c.SlowNs)*40 + time.Second) // slow handlers finish their backlog
+		time.Sleep(time.Duration(c.SlowNs)*40 + time.Duration(c.SetupNs)*time.Duration(len(c.Conns)) + time.Second) // slow callbacks and handlers finish their backlog
 		synctest.Wait()
 		// end of case: peers close, then the local side shuts down
 		for _, cn := range conns {
@@ -533,6 +544,9 @@ func checkC04(c *C04Case, rec *evid.Rec) (vs []pbt.Violation) {
 	}
 	if c.AtOnce {
 		rec.Hist("connections-pending-at-once")
+	}
+	if c.SetupNs > 0 {
+		rec.Hist("slow-new-client-callback")
 	}
 	rec.Hist(fmt.Sprintf("buf=%d", c.Buf))
 	rec.Hist(fmt.Sprintf("connections=%d", len(c.Conns)))
